@@ -9,7 +9,8 @@ DIR = os.path.join(os.path.dirname(os.path.dirname(os.path.abspath(__file__))), 
 SERVER_CERTS = ["rsa1", "rsa2", "rsa3", "rsa4", "ed1", "ed2"]
 BAD_CERTS = ["bad1", "bad2"]       # OpenSSL serves them, cryptography cannot parse them
 EC_CERTS = ["ec1"]
-CLIENT_CERTS = ["cli_rsa1", "cli_rsa2", "cli_ed1"]
+CLIENT_CERTS = ["cli_rsa1", "cli_rsa2", "cli_ed1", "cli_same1", "cli_same2"]   # same1/2: same subject
+EXPIRED_CERTS = ["expired1"]       # validity 2000-2001; OpenSSL serves it, TOFU pins by fingerprint
 
 
 def crt(name):
@@ -32,11 +33,15 @@ def fp(name) -> str:
 
 
 @functools.lru_cache(None)
-def server_ctx(name) -> ssl.SSLContext:
-    """Permissive scripted-server context presenting fixture ``name``."""
+def server_ctx(name, tls12=False) -> ssl.SSLContext:
+    """Permissive scripted-server context presenting fixture ``name``
+    (tls12=True: TLS 1.2 only, where the server's Finished is the last
+    handshake message and application data can ride in the same flight)."""
     ctx = ssl.SSLContext(ssl.PROTOCOL_TLS_SERVER)
     ctx.load_cert_chain(crt(name), key(name))
     ctx.minimum_version = ssl.TLSVersion.TLSv1_2
+    if tls12:
+        ctx.maximum_version = ssl.TLSVersion.TLSv1_2
     ctx.num_tickets = 0
     return ctx
 
